@@ -35,6 +35,7 @@ config_t *drv_cfgp;
 #define cfg (*drv_cfgp)
 extern void xx_new_config(void);
 extern void xx_delete_config(void);
+extern void xx_reload_config(void);
 extern int xx_op(int n, char **tok);        /* returns 1 if it handled the line */
 #else
 static FILE *out;
@@ -652,9 +653,9 @@ static int run_line(char *line)
   if(n == 2 && IS("case"))
   {
 #ifdef DRV_CXX
-    if(live) { xx_delete_config(); live = 0; }
+    if(live) { xx_delete_config(); live = 0; leak_probe(); }
 #else
-    if(live) { config_destroy(&cfg); live = 0; }
+    if(live) { config_destroy(&cfg); live = 0; leak_probe(); }   /* a leak is attributed to the case that ends here */
 #endif
     evlen = 0;
     strings_ok = 1;
@@ -666,8 +667,8 @@ static int run_line(char *line)
   if(n == 1 && IS("init"))
   {
 #ifdef DRV_CXX
-    if(live) xx_delete_config();
-    xx_new_config();
+    if(live) xx_reload_config();     /* the hot-reload idiom: the new Config exists before the old one is deleted */
+    else xx_new_config();
 #else
     config_init(&cfg);
 #endif
@@ -1197,9 +1198,9 @@ int main(int argc, char **argv)
   free(line);
   fclose(sf);
 #ifdef DRV_CXX
-  if(live) xx_delete_config();
+  if(live) { xx_delete_config(); leak_probe(); }
 #else
-  if(live) config_destroy(&cfg);
+  if(live) { config_destroy(&cfg); leak_probe(); }
 #endif
   free(evbuf);
   for(size_t i = 0; i < handed_n; i++) free(handed_tab[i].copy);
